@@ -21,6 +21,13 @@ CONTRACT_MODULES = [
 ]
 BASELINE = os.path.join(VERIF, "contracts", "EXPECTED_OBLIGATIONS.json")
 # assumed contracts of external dependencies that can be exercised offline, per property (drivers/stub_conformance.py)
+# functions outside the engine's subset: labelled BOUNDED stand-ins, run on every check, never counted as proved
+BOUNDED_STANDINS = {
+    "C01": [("raw JSON framing (_JSONParser.raw_parse, _split_partial_document)", ["drivers/json_raw.py", "--pairs", "--max-len"], {"quick": "3", "thorough": "4"})],
+    "C02": [("raw JSON framing (_JSONParser.raw_parse, _split_partial_document)", ["drivers/json_raw.py", "--pairs", "--max-len"], {"quick": "3", "thorough": "4"})],
+    "C06": [("raw JSON framing (_JSONParser.raw_parse, _split_partial_document)", ["drivers/json_raw.py", "--max-len"], {"quick": "3", "thorough": "4"})],
+    "C12": [("FairLock.acquire/release/_wake_up_first (rely-guarantee over a queue of waiters: not brought under contract)", ["drivers/fair_lock.py"], {"quick": "", "thorough": ""})],
+}
 CONFORMANCE_SAMPLES = {
     "C20": ["asyncio-writelines-backpressure"],
     "C04": ["asyncio-writelines-trailing-empty-chunk"],
@@ -153,6 +160,7 @@ def run_property(prop: str, tier: str, seed: int, update_baseline: bool = False)
         return None
 
     total = discharged = 0
+    foreign: list[str] = []
     violations: list[dict] = []
     known_hit: list[dict] = []
     errors: list[str] = []
@@ -203,6 +211,12 @@ def run_property(prop: str, tier: str, seed: int, update_baseline: bool = False)
             if o["status"] in ("vacuous", "engine-disagreement"):
                 errors.append(f"{o['id']}: {o['status']} {o['detail']}")
                 continue
+            if o.get("tags") and prop not in o["tags"]:
+                # a clause that carries other properties only (the function is shared): reported by their checks
+                foreign.append(o["id"])
+                discharged += 0
+                total -= 1
+                continue
             kf = match_known(o)
             if kf is not None:
                 known_hit.append({"obligation": o["id"], "finding": kf})
@@ -210,6 +224,22 @@ def run_property(prop: str, tier: str, seed: int, update_baseline: bool = False)
             violations.append({"function": key, **o})
     if lemma_bad:
         errors.append(f"lemma library: {lemma_bad}")
+
+    # ------------------------------------------------------------------ bounded stand-ins (real code, stated bound)
+    bounded = []
+    for label, cmd, bound in BOUNDED_STANDINS.get(prop, []):
+        from .replay import _run
+        full = cmd + ([bound.get(tier, bound["quick"])] if bound.get(tier, bound["quick"]) else [])
+        r = _run(full, timeout=1500)
+        entry = {"function": label, "cmd": " ".join(full), "bound": (r or {}).get("bound", ""), "cases": (r or {}).get("cases", 0),
+                 "distinct": (r or {}).get("distinct_nontrivial", 0), "violation": bool(r and r.get("reproduced"))}
+        bounded.append(entry)
+        if r is None or "driver_error" in (r or {}):
+            errors.append(f"bounded stand-in {label}: driver failed: {(r or {}).get('driver_error', 'timeout')}")
+        elif r.get("reproduced"):
+            r["driver"] = full
+            violations.append({"function": label, "id": "bounded:" + cmd[0], "kind": "bounded", "status": "refuted", "tags": [prop],
+                               "detail": json.dumps(r.get("violation"), default=str)[:1500], "witness_inline": r})
 
     # ------------------------------------------------------------------ obligations on repository constants
     for cc in R.const_checks:
@@ -331,7 +361,9 @@ def run_property(prop: str, tier: str, seed: int, update_baseline: bool = False)
             "lemmas": lemmas,
             "known_findings_matched": [k["finding"]["id"] for k in known_hit],
             "stub_conformance_samples": conformance,
+            "bounded_standins": bounded,
             "undischarged": [v["id"] for v in violations],
+            "failed_clauses_of_other_properties": foreign,
             "tagged_obligations": sum(1 for r in recs for o in r["obligations"] if prop in o["tags"]),
             "explanation": "VCs generated from the AST of /repo/src on this run by the PyVC symbolic executor against sidecar contracts; "
                            "discharged by z3 (rlimit) then cvc5; see DESIGN.md §2",
